@@ -5,21 +5,12 @@ import UbxModel.Spec.Read
 import UbxModel.Spec.Keys
 import UbxModel.Spec.Helpers
 import UbxModel.Spec.Layouts
+import UbxModel.Spec.Rmw
+import UbxModel.Driver.Common
+open DriverCommon
 /-! Line-protocol driver over the *specification* only (`Spec/` imports neither `Model/` nor `Gen/`):
     the property oracles stay executable when a generated table, the model or a proof no longer
     compiles.  One line in, one line out. -/
-
-def hexVal (c : Char) : Nat :=
-  if '0' ≤ c ∧ c ≤ '9' then c.toNat - 48 else if 'a' ≤ c ∧ c ≤ 'f' then c.toNat - 87 else c.toNat - 55
-
-def parseHex (s : String) : List Nat :=
-  let rec go : List Char → List Nat
-    | a :: b :: r => (hexVal a * 16 + hexVal b) :: go r
-    | _ => []
-  go s.toList
-
-def hexDigit (n : Nat) : Char := if n < 10 then Char.ofNat (48 + n) else Char.ofNat (87 + n)
-def toHex (bs : List Nat) : String := String.mk (bs.flatMap fun b => [hexDigit (b / 16), hexDigit (b % 16)])
 
 /-- `specscan|hex`: the reference scanner's events -/
 def runSpecScan (h : String) : String :=
@@ -63,14 +54,23 @@ def runRead (cls n pl : String) : String :=
       | .i => s!"{name}={Spec.read p off w true}"
       | .ch => s!"{name}=s:{toHex (Spec.readText p off w)}")
 
+def parseSpecVal (s : String) : Spec.FVal :=
+  if s.startsWith "s:" then .text (parseHex (String.ofList (s.toList.drop 2))) else .num (parseInt s)
+
 def handle (line : String) : String :=
   match line.trim.splitOn "|" with
   | ["specscan", h] => runSpecScan h
   | ["nmeacount", h] => toString (Spec.Nmea.count (parseHex h))
   | ["wire", c, i, pl] => toHex (Spec.wire c.toNat! i.toNat! (parseHex pl))
+  | ["wiregen", c, i, l, s, m] => summary (Spec.wire c.toNat! i.toNat! (lcgPayload l.toNat! s.toNat! m.toNat!)) ++ " same"
   | ["ck", h] => let s := parseHex h; s!"{Spec.ckA s},{Spec.ckB s}"
   | ["layout", c, n] => (match specLayout c n.toNat! with | some l => showLayout l | none => "no-layout")
   | ["read", c, n, pl] => runRead c n pl
+  | ["reenc", c, n, pl] => (match specLayout c n.toNat! with
+      | some l => toHex (Spec.zeroReserved l (parseHex pl)) | none => "no-layout")
+  | ["rmw", c, n, pl, f, v] => (match specLayout c n.toNat! with
+      | some l => (match Spec.rmw l (parseHex pl) f (parseSpecVal v) with | some bs => toHex bs | none => "no-such-field")
+      | none => "no-layout")
   | ["keyid", s, g, i] => toString (Spec.keyId s.toNat! g.toNat! i.toNat!)
   | ["keysigned", k] => toString (Spec.documentedSigned k.toNat!)
   | ["sizebits", s] => (match Spec.sizeBits s.toNat! with | some b => toString b | none => "none")
@@ -78,10 +78,4 @@ def handle (line : String) : String :=
   | ["rate", r] => let x := Spec.rate r.toNat!; s!"{x.1},{x.2}"
   | _ => "bad-line"
 
-partial def loop (h : IO.FS.Stream) (out : IO.FS.Stream) : IO Unit := do
-  let line ← h.getLine
-  if line.isEmpty then return ()
-  out.putStrLn (handle line)
-  loop h out
-
-def main : IO Unit := do loop (← IO.getStdin) (← IO.getStdout)
+def main : IO Unit := do loop handle (← IO.getStdin) (← IO.getStdout)
